@@ -29,6 +29,7 @@ type Case struct {
 	Peer                         string
 	Host                         string
 	Headers                      [][2]string // forwarding headers, in order
+	TLS                          bool        `json:",omitempty"` // the request arrived on a TLS connection
 	DerivedFrom                  []string    `json:",omitempty"` // the app's Config is a modified copy of another app's Config() that trusts these proxies
 }
 
@@ -78,7 +79,11 @@ func observe(c Case, withHeaders bool) (o obsT, panicked string) {
 			panicked = fmt.Sprint(r)
 		}
 	}()
-	vk.DoAddr(app, &net.TCPAddr{IP: net.ParseIP(c.Peer), Port: 4711}, "GET", "/", nil, hdr...)
+	if c.TLS {
+		vk.DoTLS(app, &net.TCPAddr{IP: net.ParseIP(c.Peer), Port: 4711}, "GET", "/", hdr...)
+	} else {
+		vk.DoAddr(app, &net.TCPAddr{IP: net.ParseIP(c.Peer), Port: 4711}, "GET", "/", nil, hdr...)
+	}
 	return o, ""
 }
 
@@ -188,6 +193,9 @@ func check(c Case) vk.Verdict {
 			case "X-Url-Scheme":
 				want = h[1]
 			}
+			if c.TLS {
+				want = "https" // the connection itself is encrypted: no header makes it less so
+			}
 			want = strings.ToLower(want) // scheme names compare without regard to case; Secure() and callers compare with "https"
 			if with.Scheme != want {
 				return vk.Failf("%s: trusted peer: Scheme()=%q, want %q", ctx, with.Scheme, want)
@@ -242,7 +250,8 @@ var oddItems = []string{"::ffff:10.0.0.1", "2001:DB8:0:0:0:0:0:1", "2001:db8:0::
 func genCase(t *rapid.T) Case {
 	c := Case{Loopback: rapid.Bool().Draw(t, "lo"), Private: rapid.Bool().Draw(t, "pr"), LinkLocal: rapid.Bool().Draw(t, "ll"),
 		ProxyHeader: rapid.SampledFrom([]string{"", "X-Forwarded-For", "X-Real-Ip", "X-Client-Ip"}).Draw(t, "ph"),
-		Validate:    rapid.Bool().Draw(t, "val"), Host: rapid.SampledFrom([]string{"real.sub.test", "real.sub.test:8080", "localhost", "real.sub.test", ""}).Draw(t, "host")}
+		Validate:    rapid.Bool().Draw(t, "val"), Host: rapid.SampledFrom([]string{"real.sub.test", "real.sub.test:8080", "localhost", "real.sub.test", ""}).Draw(t, "host"),
+		TLS: rapid.IntRange(0, 3).Draw(t, "tls") == 0}
 	pool := items[:len(items)-1]
 	if rapid.IntRange(0, 19).Draw(t, "all") == 0 {
 		pool = items
